@@ -44,6 +44,68 @@ def _shared(ent):
     return block
 
 
+class Relink(Scenario):
+    """a partner is linked elsewhere from its own side and the link is then restored from the other side (optionally in a later
+    session): both entities record and resolve each other again"""
+    pid = "C20"
+
+    def body(self, cx):
+        from geoh5py.workspace import Workspace
+        pair = self.params["pair"]
+        RX, TX, rx_to_tx, tx_to_rx = _classes(pair)
+        reopen = bool(cx.bool("reopened_after_the_first_link"))
+        restore_sym = cx.bool("restored_from_the_receiver_side")
+        em = pair in ("AirborneTEM", "AirborneFEM", "MovingLoopGroundTEM", "MovingLoopGroundFEM", "Tipper")
+        self.known_class(cx, "link_restored_from_the_receiver_side_after_relinking", restore_sym if em else False)
+        restore_from_rx = bool(restore_sym)
+        if pair.startswith("LargeLoop"):
+            return "not built for large loops"
+        ws = Workspace()
+        verts = real_np.c_[real_np.arange(4, dtype=float), real_np.zeros(4), real_np.zeros(4)]
+        if pair == "DirectCurrent":
+            tx = TX.create(ws, vertices=verts, parts=real_np.array([0, 0, 1, 1], dtype="int32"), name="tx")
+            tx.add_default_ab_cell_id()
+            mk = lambda nm: RX.create(ws, vertices=verts + 0.5, parts=real_np.array([0, 0, 1, 1], dtype="int32"), name=nm)   # noqa: E731
+        else:
+            tx = TX.create(ws, vertices=verts + 0.5, name="tx")
+            mk = lambda nm: RX.create(ws, vertices=verts, name=nm)      # noqa: E731
+        rx, rx_b = mk("rx"), mk("rx_b")
+        if pair == "DirectCurrent":
+            rx.ab_cell_id = real_np.array([1, 2], dtype="int32")
+            rx_b.ab_cell_id = real_np.array([1, 2], dtype="int32")
+        setattr(rx, rx_to_tx, tx)
+        if reopen:
+            u = (rx.uid, rx_b.uid, tx.uid)
+            ws.close()
+            ws = Workspace(ws.h5file)
+            rx, rx_b, tx = (ws.get_entity(x)[0] for x in u)
+        try:
+            setattr(tx, tx_to_rx, rx_b)         # the partner is linked elsewhere from its own side
+            if restore_from_rx:
+                setattr(rx, rx_to_tx, tx)
+            else:
+                setattr(tx, tx_to_rx, rx)
+        except AttributeError as e:
+            if "cannot be set" in str(e):
+                return "this side cannot make the link"
+            raise
+        what = f"[{pair}, relinked, restored from {'rx' if restore_from_rx else 'tx'}]"
+        u = (rx.uid, tx.uid)
+        ws.close()
+        ws2 = Workspace(ws.h5file)
+        rx2, tx2 = ws2.get_entity(u[0])[0], ws2.get_entity(u[1])[0]
+        for a_rx, a_tx, tag in ((rx, tx, "live"), (rx2, tx2, "after re-opening")):
+            p_of_rx, p_of_tx = getattr(a_rx, rx_to_tx, None), getattr(a_tx, tx_to_rx, None)
+            cx.prove(p_of_rx is not None and p_of_rx.uid == u[1], f"{what} {tag}: the receivers resolve the restored partner", "partners resolve")
+            cx.prove(p_of_tx is not None and p_of_tx.uid == u[0], f"{what} {tag}: the partner resolves the receivers it was restored to",
+                     "partners resolve")
+            ir, it = _meta_ids(a_rx), _meta_ids(a_tx)
+            cx.prove(ir == it and str(u[0]) in ir.values() and str(u[1]) in ir.values(),
+                     f"{what} {tag}: both identifiers are recorded on both entities", "both ids on both")
+        ws2.close()
+        return "ok"
+
+
 class LinkedPair(Scenario):
     pid = "C20"
 
@@ -53,7 +115,9 @@ class LinkedPair(Scenario):
         from_rx = bool(cx.bool("linked_from_the_receiver_side"))
         edit = EDITS[int(cx.int("edit", 0, len(EDITS)))]
         edit_rx = bool(cx.bool("edited_through_the_receiver_side"))
-        copy_kind = COPIES[int(cx.int("copy", 0, len(COPIES)))]
+        copy_kind = self.params["copy"]
+        inspected = bool(cx.bool("partners_inspected_before_the_edit"))
+        later_session = bool(cx.bool("edit_made_in_a_later_session"))
         copy_rx = bool(cx.bool("copied_side_is_the_receivers"))
         reopen = bool(cx.bool("reopened_before_the_checks"))
         RX, TX, rx_to_tx, tx_to_rx = _classes(pair)
@@ -103,7 +167,13 @@ class LinkedPair(Scenario):
             ir, it = _meta_ids(a_rx), _meta_ids(a_tx)
             cx.prove(ir == it and str(a_rx.uid) in ir.values() and str(a_tx.uid) in ir.values(),
                      f"{what}] {tag}: both identifiers are recorded on both entities ({ir} / {it})", "both ids on both")
-        check_link(rx, tx, "after linking")
+        if inspected:
+            check_link(rx, tx, "after linking")
+        if later_session:       # the entities are re-read: nothing is cached about the partner
+            urx0, utx0 = rx.uid, tx.uid
+            ws.close()
+            ws = Workspace(ws.h5file)
+            rx, tx = ws.get_entity(urx0)[0], ws.get_entity(utx0)[0]
         # edit shared parameters through one side
         side = rx if edit_rx else tx
         other = tx if edit_rx else rx
@@ -130,6 +200,7 @@ class LinkedPair(Scenario):
                 cx.prove(list(rx.channels) == [3.0, 4.0] and list(tx.channels) == [3.0, 4.0], f"{what}, {edit}] the last edit wins on both sides",
                          "edits visible on both")
         shared_live = _shared(rx) if pair != "DirectCurrent" else None
+        check_link(rx, tx, "after the edit")
         # copy one side
         cp = None
         other_ws = None
@@ -187,7 +258,7 @@ class LinkedPair(Scenario):
 
 
 def scenarios(tier, seed):
-    return [LinkedPair(pair=p) for p in PAIRS]
+    return [LinkedPair(pair=p, copy=c) for p in PAIRS for c in COPIES] + [Relink(pair=p) for p in PAIRS]
 
 
 def main(tier, seed):
@@ -201,5 +272,5 @@ def main(tier, seed):
         bounds="class pair (8: airborne / ground moving-loop / ground large-loop x time / frequency domain, tipper, direct current) x linking "
                "side x edit {none, channels, unit, input type, channels through both sides} x edited side x copy {none, plain, other "
                "workspace, masked} x copied side x re-open",
-        expected_outcomes={"LinkedPair": {"ok"}}, validate_max=0,
+        expected_outcomes={"LinkedPair": {"ok"}, "Relink": {"ok"}}, validate_max=0,
     )
